@@ -166,6 +166,18 @@ class ComputeTypeVisitor(Visitor.DefaultVisitor):
                 expr.ResolveType(scope)
                 expr.SetType(expr.function.GetReturnType())
             elif isinstance(expr, ast.BinaryExpression):
+                if isinstance(expr, ast.AssignmentExpression):
+                    # Components can be assigned in a vector only; a scalar
+                    # has nothing a swizzle could select for writing
+                    left = expr.GetLeft()
+                    if (
+                        isinstance(left, ast.MemberAccessExpression)
+                        and left.isSwizzle
+                        and left.GetParent().GetType().IsScalar()
+                    ):
+                        Errors.ERROR_CANNOT_SWIZZLE_TYPE.Raise(
+                            left.GetParent().GetType()
+                        )
                 expr.ResolveType(
                     expr.GetLeft().GetType(), expr.GetRight().GetType()
                 )
